@@ -21,7 +21,7 @@ P = {
  "C04": dict(level="exploration", tech="runtime monitor: ordered-map/bounded-FIFO reference model compared with the ReadOnlySpan delivered to a recording processor, over generated span programs and limits; canaries behind caller-owned option slices",
              text="Held on every generated program of span API calls under every drawn limit vector; model and truncation predicate are independent of the SDK.",
              note="Trusts the harness reference model; attribute order is not asserted (unspecified)."),
- "C05": dict(level="exploration", tech="runtime monitor: map model of key->typed value compared against Set construction, equality, map identity, filter and lookup APIs over generated slices, permutations and duplications; lookups of the empty key and of every present key's neighbours; slices presented with spare capacity and junk behind len; filter key slices reused by the caller",
+ "C05": dict(level="exploration", tech="runtime monitor: map model of key->typed value compared against Set construction, equality, map identity, filter and lookup APIs over generated slices, permutations and duplications; lookups of the empty key and of every present key's neighbours; slices presented with spare capacity and junk behind len; filter key slices reused by the caller; scalar constructors and sets must hand back the bits they were given",
              text="Held on every generated key-value slice, permutation, duplication and filter predicate.",
              note="Trusts the harness model of typed-value equality."),
  "C06": dict(level="exploration", tech="runtime monitor: recording log exporter + ticket-clock history oracle (once, per-producer order, batch bound, exclusivity, overwrite-soundness, immutability) over seeded concurrent histories under go -race",
@@ -30,13 +30,13 @@ P = {
  "C07": dict(level="exploration", tech="runtime monitor: exact (big-float / exponent arithmetic) bucket-index oracle applied incrementally to every intermediate collection of generated measurement sequences; concurrent record/collect family checking every collected point for internal consistency; observable-counter family; shuffled boundary lists through view functions",
              text="Held on every generated measurement sequence, boundary list and (MaxSize, MaxScale) pair, collecting after every few records so every rescale is observed.",
              note="Trusts math/big and the harness' incremental rescale model."),
- "C08": dict(level="exploration", tech="runtime monitor: running delta ledger vs cumulative reader, interval adjacency on reported timestamps, async observation script model, over generated multi-cycle histories; wide (thousands of sets), concurrent (record while collecting, overlapping collections of one reader) and interrupted (collection attempts on done contexts, callbacks failing on demand) families; bucket layouts of different lengths with shifting output slots in reused ResourceMetrics; several goroutines creating one asynchronous instrument at once",
+ "C08": dict(level="exploration", tech="runtime monitor: running delta ledger vs cumulative reader, interval adjacency on reported timestamps, async observation script model, over generated multi-cycle histories; wide (thousands of sets), concurrent (record while collecting, overlapping collections of one reader) and interrupted (collection attempts on done contexts, callbacks failing on demand) families; bucket layouts of different lengths with shifting output slots in reused ResourceMetrics; several goroutines creating one asynchronous instrument at once; same-named observables in meters that differ by version / schema URL / attributes",
              text="Held on every generated history of measurements, callback scripts, (un)registrations and collections for all instrument kinds and aggregations.",
              note="Mostly single-threaded histories plus a concurrent and an interrupted-collection family; trusts the harness ledger."),
  "C09": dict(level="exploration", tech="runtime monitor: sampler wrapped by a recording sampler, span trees checked against the recorded decisions; ratio sampler determinism/monotonicity/extremes on generated trace ids; binomial band for the share; trees repeated under runtime/trace; late children of ended parents; concurrent ends through a simple span processor; snapshot Parent() vs start context; trees under OTEL_TRACES_SAMPLER values; a held, always-failing batch exporter drained at Shutdown; processor list edited while End walks it; slow re-reading batch exporter under concurrent ForceFlush",
              text="Held on every generated span tree, sampler composition, parent class and (trace id, ratio) pair.",
              note="'tracks r' is a 6-sigma statistical band; trusts the wrapper's log."),
- "C10": dict(level="exploration", tech="runtime monitor: per-span OnEnd counters, tagged mutation groups (torn-write detection), snapshot re-comparison, ticket-clock child count bounds, with and without runtime/trace, under go -race; processors that read the live span, churned processors probed inside/after their registration window, tiny event/link queues, caller-owned attribute buffers, live ReadOnlySpan reads racing End, stack-trace ownership (goroutine header) for concurrent RecordError(WithStackTrace); record-only spans; errors whose Error() panics",
+ "C10": dict(level="exploration", tech="runtime monitor: per-span OnEnd counters, tagged mutation groups (torn-write detection), snapshot re-comparison, ticket-clock child count bounds, with and without runtime/trace, under go -race; processors that read the live span, churned processors probed inside/after their registration window, tiny event/link queues, caller-owned attribute buffers, live ReadOnlySpan reads racing End, stack-trace ownership (goroutine header) for concurrent RecordError(WithStackTrace); record-only spans; errors whose Error() panics; logging code that re-enters the provider (instrumented logger)",
              text="Held on every generated concurrent program on shared spans in traced and untraced mode; evidence reports truly overlapping End calls.",
              note="Trusts race detector; interleavings not produced are not covered."),
  "C11": dict(level="exploration", tech="runtime monitor: member/property map model + independent percent codec and limit arithmetic over generated baggage, mutated/raw header bytes and edit programs; extraction into contexts that already carry baggage",
@@ -48,10 +48,10 @@ P = {
  "C13": dict(level="exploration", tech="runtime monitor: loopback OTLP/Zipkin collectors decode what the real exporters put on the wire; two independent projections (input objects vs decoded protobuf) compared as multisets; schema-URL-only resources",
              text="Held on every generated batch for the six OTLP exporters and Zipkin; gRPC and HTTP payloads compared after canonical ordering.",
              note="Trusts protobuf/gRPC libraries and the harness projection."),
- "C14": dict(level="fault_enumeration", tech="runtime monitor: scripted loopback collectors inject response sequences; oracle over attempts, payload identity, gaps vs hints, results, error-handler reports; partial success with count only / message only; unbounded budget under a hint longer than the default budget",
+ "C14": dict(level="fault_enumeration", tech="runtime monitor: scripted loopback collectors inject response sequences; oracle over attempts, payload identity, gaps vs hints, results, error-handler reports; partial success with count only / message only; unbounded budget under a hint longer than the default budget; RetryInfo with zero delay; slow answers counted against the budget",
              text="Single-outcome table enumerated completely for the six exporters, seeded multi-outcome sequences, cancellation/shutdown points.",
              note="Lower bounds on waits are hard; upper bounds decided logically with generous watchdogs."),
- "C15": dict(level="exploration", tech="runtime monitor: membership model + shutdown counters in recording components, child process per program (panics/process death observed by parent), concurrent variant under go -race; processor list edited while End walks it; exporters that read every span; processors whose Shutdown reports an error",
+ "C15": dict(level="exploration", tech="runtime monitor: membership model + shutdown counters in recording components, child process per program (panics/process death observed by parent), concurrent variant under go -race; processor list edited while End walks it; exporters that read every span; processors whose Shutdown reports an error; exporters that fail to close; child-process cases classified as hang by two stack samples",
              text="Held on every generated lifecycle program on the three providers incl. nil exporters and cancelled contexts.",
              note="Trusts child-process supervision; schedules not produced are not covered."),
  "C16": dict(level="exploration", tech="runtime monitor: one process per trial; ledger of post-install telemetry vs ManualReader/recording processor, callback counters, watchdog with two-sample deadlock confirmation, go -race; installations interrupted by a fail-fast error handler (panic / Goexit); late registrations mixing SDK-native and placeholder observables",
@@ -60,13 +60,13 @@ P = {
  "C17": dict(level="exploration", tech="runtime monitor: ordered-map model with recursive truncation predicate compared against Record contents after generated SetAttributes/AddAttributes programs; clone divergence; concurrent Emit through one shared Logger",
              text="Held on every generated program under every drawn (count, length) limit pair, on emitted records and clones.",
              note="Trusts the harness model."),
- "C18": dict(level="exploration", tech="runtime monitor: independent name/suffix/label recogniser + twin cumulative ManualReader value comparison on gathered families; child per batch (process death observed); concurrent scrapes under go -race; scopes publishing one instrument name in different units; resources target_info cannot be built from",
+ "C18": dict(level="exploration", tech="runtime monitor: independent name/suffix/label recogniser + twin cumulative ManualReader value comparison on gathered families; child per batch (process death observed); concurrent scrapes under go -race; scopes publishing one instrument name in different units; resources target_info cannot be built from; observable counter values under overlapping scrapes",
              text="Held on every generated instrument name/unit/kind/attribute/option case in both validation schemes.",
              note="Trusts client_golang's registry as the acceptance oracle plus the harness recogniser."),
  "C19": dict(level="exploration", tech="runtime monitor: map model of right-biased union + schema case analysis + independent percent codec over generated resources, environment strings and detector lists (whole, and split over sub-slice options); identity of operands incl. nil vs Empty()",
              text="Held on every generated pair/triple, environment string and detector list.",
              note="Trusts the harness model."),
- "C20": dict(level="fault_enumeration", tech="runtime monitor: child process per configuration row; behavioural observation at loopback collectors (who received, path, headers, compression, deadline) and at SDK extension points; all-zero raw span limits option",
+ "C20": dict(level="fault_enumeration", tech="runtime monitor: child process per configuration row; behavioural observation at loopback collectors (who received, path, headers, compression, deadline) and at SDK extension points; all-zero raw span limits option; header and timeout rows over a caller-supplied gRPC connection / an HTTP client with a proxy function",
              text="Source cross product {absent, valid, invalid}^3 enumerated completely per exporter and setting; SDK env tables enumerated; invalid values must not kill the child.",
              note="Timeouts observed as handler deadlines (gRPC) / hard lower bounds (HTTP)."),
 }
